@@ -14,7 +14,8 @@ CONSTANTS OutFile, Tier
 VARIABLE x
 
 Counts == { <<1, 0, 0>>, <<2, 1, 0>>, <<1, 1, 1>>, <<6, 6, 0>>, <<7, 6, 0>>, <<7, 7, 0>>, <<12, 0, 1>>, <<13, 0, 0>>,
-            <<14, 0, 0>>, <<5, 5, 5>>, <<7, 7, 7>>, <<0, 13, 13>>, <<20, 3, 0>>, <<25, 25, 0>>, <<9, 20, 14>> }
+            <<14, 0, 0>>, <<5, 5, 5>>, <<7, 7, 7>>, <<0, 13, 13>>, <<20, 3, 0>>, <<25, 25, 0>>, <<9, 20, 14>>,
+            <<30, 50, 0>>, <<40, 33, 17>>, <<64, 0, 3>>, <<31, 33, 0>> }      \* 64 and more to one receiver: long-list paths of the sort
 \* the third set: indices that are not Unicode scalar values (above 0x10FFFF, surrogate block 0xD800..0xDFFF) next to a small one;
 \* fb: base of the code-less fan-out services F_1..F_10 of the "extra" variant
 IdSets == { [a |-> 5, b |-> 1000, c |-> 77, r |-> 9, q |-> 20, n |-> 30, fb |-> 40, large |-> FALSE],
@@ -45,7 +46,7 @@ Scenario(cnt, ids, ck, relay, split, free, extra, priv) ==
    reports |-> IF split THEN << <<ids.a>>, <<ids.b, ids.c>> >> ELSE << <<ids.a, ids.b, ids.c>> >>,
    free |-> IF free THEN <<ids.r>> ELSE <<>>,
    priv |-> IF priv THEN ids.r ELSE 0,
-   over12 |-> cnt[1] + cnt[2] + cnt[3] > 12,
+   over12 |-> cnt[1] + cnt[2] + cnt[3] > 12, over63 |-> cnt[1] + cnt[2] + cnt[3] > 63,
    large |-> ids.large, fan |-> extra,
    twice |-> free \/ relay]      \* R runs in two rounds: two accumulation outputs of one service
 
